@@ -5,6 +5,7 @@ package fixtures
 
 import (
 	"bytes"
+	"fmt"
 	"io"
 	"reflect"
 	"sort"
@@ -67,6 +68,49 @@ func (NamedReader) Name() string { return ReaderName }
 
 var registry = map[string]*Fixture{}
 
+// BuildFailure is an example grammar that participle.Build no longer accepts (every one of them builds on the tree
+// the fixtures were ported from; none is left-recursive).
+type BuildFailure struct {
+	Grammar string
+	Msg     string
+}
+
+// BuildFailures lists the example grammars whose Build failed or panicked; their fixtures are not registered.
+var BuildFailures []BuildFailure
+
+// Examples lists the root types of the example grammars, in build order.
+var Examples []string
+
+// ExampleBuild reports what participle.Build said about the example grammar with that root type.
+func ExampleBuild(name string) (built bool, msg string) {
+	for _, f := range BuildFailures {
+		if f.Grammar == name {
+			return false, f.Msg
+		}
+	}
+	return true, ""
+}
+
+// mustBuild is participle.Build for the package-level example parsers: a failure is recorded, not fatal, so that
+// the checks can report it.
+func mustBuild[G any](opts ...participle.Option) (p *participle.Parser[G]) {
+	var g G
+	name := reflect.TypeOf(g).Name()
+	Examples = append(Examples, name)
+	defer func() {
+		if r := recover(); r != nil {
+			BuildFailures = append(BuildFailures, BuildFailure{name, fmt.Sprintf("Build panicked: %v", r)})
+			p = nil
+		}
+	}()
+	p, err := participle.Build[G](opts...)
+	if err != nil {
+		BuildFailures = append(BuildFailures, BuildFailure{name, "Build returned: " + err.Error()})
+		return nil
+	}
+	return p
+}
+
 // Register adds a fixture built from a typed parser.
 func Register[G any](name string, p *participle.Parser[G], elided []string, samples ...string) *Fixture {
 	f := &Fixture{Name: name, Samples: samples, Elided: elided}
@@ -108,7 +152,9 @@ func Register[G any](name string, p *participle.Parser[G], elided []string, samp
 	}
 	f.Def = func() lexer.Definition { return p.Lexer() }
 	f.EBNF = func() string { return p.String() }
-	registry[name] = f
+	if p != nil {
+		registry[name] = f
+	}
 	return f
 }
 
